@@ -340,11 +340,21 @@ def w_expr(off: int, scale: int, unk: int) -> bool:
     else:
         e = gtirb.SymAddrAddr(scale, off, y1, y2, attributes=attrs)
     bi.symbolic_expressions[key] = e
+    # neighbours at lower and higher offsets with other attribute sets (several expressions in one interval)
+    lowk, highk = (key - 1 if key > 0 else None), (key + 1 if key < 2 ** 64 - 1 else None)
+    if lowk is not None:
+        bi.symbolic_expressions[lowk] = gtirb.SymAddrConst(7, y2, attributes=[SATTRS[9], SATTRS[2]])
+    if highk is not None:
+        bi.symbolic_expressions[highk] = gtirb.SymAddrConst(-7, y1)
     msg = ir._to_protobuf()
     if oracle() == "writer":
         pbi = msg.modules[0].sections[0].byte_intervals[0]
-        if list(pbi.symbolic_expressions.keys()) != [key]:
+        if sorted(pbi.symbolic_expressions.keys()) != sorted(k for k in (lowk, key, highk) if k is not None):
             return fail("expression map keys")
+        if highk is not None and (len(pbi.symbolic_expressions[highk].attribute_flags) != 0 or pbi.symbolic_expressions[highk].addr_const.offset != -7):
+            return fail("neighbouring expression fields")
+        if lowk is not None and sorted(pbi.symbolic_expressions[lowk].attribute_flags) != sorted([SATTRS[9].value, SATTRS[2].value]):
+            return fail("neighbouring expression attribute flags")
         pe = pbi.symbolic_expressions[key]
         which = pe.WhichOneof("value")
         if kind == "const":
@@ -490,6 +500,60 @@ def w_shape(a: int, b: int, c: int, d: int) -> bool:
     return done()
 
 
+def w_combo(addr: Optional[int], val: int, pa: int, rd: int, c1: bool) -> bool:
+    """
+    pre: _ou64(addr) and _u64(val) and _u64(pa) and _i64(rd)
+    post: __return__
+    """
+    # several kinds symbolic at once in ONE IR (thorough tier): module scalars, interval address, block offset = val, symbol value, edge label flag
+    order = SHARD["order"]
+    with untraced():
+        ir = gtirb.IR(uuid=U(1))
+        m2 = gtirb.Module(name="second", uuid=U(12), ir=ir)
+        gtirb.Symbol("z", uuid=U(18), payload=0, module=m2)
+    if order == 0:
+        m = gtirb.Module(name="m", uuid=U(2), preferred_addr=pa, rebase_delta=rd, ir=ir)
+        s = gtirb.Section(name="s", uuid=U(3), module=m)
+        bi = gtirb.ByteInterval(address=addr, size=2 ** 64 - 1, uuid=U(4), section=s)
+        cb = gtirb.CodeBlock(offset=val, size=0, uuid=U(5), byte_interval=bi)
+    else:
+        cb = gtirb.CodeBlock(offset=val, size=0, uuid=U(5))
+        bi = gtirb.ByteInterval(address=addr, size=2 ** 64 - 1, uuid=U(4), blocks=[cb])
+        s = gtirb.Section(name="s", uuid=U(3), byte_intervals=[bi])
+        m = gtirb.Module(name="m", uuid=U(2), preferred_addr=pa, rebase_delta=rd, sections=[s])
+        ir.modules.insert(0, m)
+    px = gtirb.ProxyBlock(uuid=U(7), module=m)
+    y = gtirb.Symbol("y", uuid=U(8), payload=val, module=m)
+    y2 = gtirb.Symbol("", uuid=U(9), payload=cb, at_end=c1, module=m)
+    m.entry_point = cb
+    bi.symbolic_expressions[val % 7] = gtirb.SymAddrAddr(rd, -1, y, y2, attributes=[SATTRS[3]])
+    ir.cfg.add(gtirb.Edge(cb, px, gtirb.Edge.Label(ETYPES[2], c1, not c1)))
+    ir.cfg.add(gtirb.Edge(px, cb))
+    msg = ir._to_protobuf()
+    if oracle() == "writer":
+        pm = [x for x in msg.modules if x.uuid == U(2).bytes][0]
+        pbi = pm.sections[0].byte_intervals[0]
+        ok = pm.preferred_addr == pa and pm.rebase_delta == rd and pbi.has_address == (addr is not None) and (addr is None or pbi.address == addr)
+        ok = ok and pbi.blocks[0].offset == val and pm.entry_point == U(5).bytes and len(msg.modules) == 2
+        for ps in pm.symbols:
+            if ps.uuid == U(8).bytes:
+                ok = ok and ps.WhichOneof("optional_payload") == "value" and ps.value == val
+            else:
+                ok = ok and ps.WhichOneof("optional_payload") == "referent_uuid" and ps.at_end == c1 and ps.name == ""
+        k = list(pbi.symbolic_expressions.keys())
+        ok = ok and k == [val % 7] and pbi.symbolic_expressions[k[0]].addr_addr.scale == rd and pbi.symbolic_expressions[k[0]].addr_addr.offset == -1
+        nl = [e for e in msg.cfg.edges if not e.HasField("label")]
+        wl = [e for e in msg.cfg.edges if e.HasField("label")]
+        ok = ok and len(nl) == 1 and len(wl) == 1 and wl[0].label.conditional == c1 and wl[0].label.direct == (not c1)
+        if not ok:
+            return fail("combined writer fields")
+        return done()
+    why = _finish_roundtrip(ir, msg)
+    if why:
+        return fail(why)
+    return done()
+
+
 AUX_TYPES = ["uint64_t", "int64_t", "mapping<string,int64_t>", "sequence<tuple<uint8_t,int64_t>>", "set<UUID>", "mapping<UUID,Offset>", "string", "bool"]
 
 
@@ -594,10 +658,16 @@ def open_version():
 # ---------------------------------------------------------------------------------------------
 # reader direction: messages built from the descriptors
 # ---------------------------------------------------------------------------------------------
-def _msg_base():
+def _msg_base(early=False):
     msg = IR_pb2.IR()
     msg.uuid = U(1).bytes
     msg.version = gtirb.version.PROTOBUF_VERSION
+    if early:
+        # an earlier module owning symbol U(9): later modules may name it (referentially closed, file order respected)
+        pe = msg.modules.add()
+        pe.uuid = U(11).bytes
+        pe.name = "early"
+        pe.symbols.add().uuid = U(9).bytes
     pm = msg.modules.add()
     pm.uuid = U(2).bytes
     pm.name = "m"
@@ -749,10 +819,12 @@ def r_expr(off: int, scale: int, flag: int) -> bool:
     kind = SHARD["kind"]
     key = SHARD["key"]
     nflags = SHARD["nflags"]
+    cross = SHARD.get("cross", 0)
     with untraced():
-        msg, pm, ps, pbi = _msg_base()
+        msg, pm, ps, pbi = _msg_base(early=bool(cross))
         pm.symbols.add().uuid = U(8).bytes
-        pm.symbols.add().uuid = U(9).bytes
+        if not cross:
+            pm.symbols.add().uuid = U(9).bytes
     pe = pbi.symbolic_expressions[key]
     if kind == "const":
         pe.addr_const.offset = off
